@@ -2366,6 +2366,12 @@ def BHJM_cylinder_segment(
     r1 = abs(r1)
     r2 = abs(r2)
     h = abs(h)
+
+    # scale invariance (make dimensionless): the special case detection below and in the
+    # core function works with absolute tolerances
+    scale = np.where(r2 > 0, r2, 1.0)
+    r1, r2, h = r1 / scale, r2 / scale, h / scale
+    observers = observers / scale[:, np.newaxis]
     z1, z2 = -h / 2, h / 2
 
     # transform dim deg->rad
